@@ -14,7 +14,7 @@ import vlib
 
 MERGE_RE = re.compile(r"merge of (map|array) .*(unresolved fork|could not match reference to a specific fork)", re.S)
 
-DEFAULTS = {"ev": "", "run": "", "job": "", "inst": "", "kind": "", "chunk": 0, "flag": True, "weak": False,
+DEFAULTS = {"ev": "", "run": "", "job": "", "inst": "", "kind": "", "chunk": 0, "flag": True, "weak": False, "named": True,
             "txt": "", "outcome": "", "jobs": [], "faults": []}
 
 
@@ -40,8 +40,11 @@ def expected_jobs(sem):
 
 
 def monitor_records(spec, sem, result):
+    faults = spec.get("faults") or {}
     out = [rec(ev="RunBegin", run=spec["name"], jobs=expected_jobs(sem), weak=bool(sem.get("weak")),
-               faults=[{"key": k, "fault": v} for k, v in (spec.get("faults") or {}).items()])]
+               faults=[{"key": k, "fault": v} for k, v in faults.items()])]
+    fault_calls = ["ID.ps." + k.split("[")[0] for k in faults]
+    ends = [e for e in result["trace"] if e["ev"] == "RunEnd"]
     for e in result["trace"]:
         if e["ev"] == "StageBegin":
             txt = ""
@@ -49,20 +52,39 @@ def monitor_records(spec, sem, result):
                 for a in result.get("args_bad") or []:
                     if a.startswith(e["job"] + ":"):
                         txt = a[:300]
-            out.append(rec(ev="StageBegin", job=e["job"], flag=bool(e["argsOk"]), txt=txt))
+            out.append(rec(ev="StageBegin", job=e["job"], flag=bool(e["argsOk"]), txt=txt,
+                           kind="placeholder" if "?" in e["job"].split("/")[0].rsplit("[", 1)[-1] else ""))
         elif e["ev"] == "StageEnd":
             out.append(rec(ev="StageEnd", job=e["job"], outcome=e["outcome"]))
-    notes = "; ".join(result.get("notes") or [])[:300]
-    if result.get("error"):
-        notes = "driver: " + result["error"][:300]
-    state = result["state"] or "none"
-    if result.get("stuck"):
-        state = "stuck-" + state
-    fatal = (result.get("fatal_log") or "")
-    if fatal:
-        notes = (notes + " | " + fatal.replace("\n", " "))[:400]
-    out.append(rec(ev="RunEnd", outcome=state, flag=bool(result["outs_ok"]), txt=notes,
-                   kind="merge-unresolved" if MERGE_RE.search(fatal) else ""))
+        elif e["ev"] == "StageKilled":
+            out.append(rec(ev="StageKilled", job=e["job"]))
+        elif e["ev"] == "Restart":
+            out.append(rec(ev="Restart"))
+        elif e["ev"] == "RunEnd":
+            last = e is ends[-1]
+            state = e["state"] or "none"
+            if e.get("stuck"):
+                state = "stuck-" + state
+            fatal = e.get("fatal") or ""
+            named = any(fatal == c or fatal.startswith(c + ".") for c in fault_calls) if fault_calls else True
+            notes = ""
+            flag = True
+            kind = ""
+            if last:
+                notes = "; ".join(result.get("notes") or [])[:300]
+                flog = (result.get("fatal_log") or "")
+                if flog:
+                    notes = (notes + " | " + flog.replace("\n", " "))[:400]
+                if MERGE_RE.search(flog):
+                    kind = "merge-unresolved"
+                flag = bool(result["outs_ok"])
+            if not named:
+                notes = ("reported %s; " % fatal) + notes
+            out.append(rec(ev="RunEnd", outcome=state, flag=flag, txt=notes, kind=kind, named=named))
+    if not ends:
+        # the driver itself failed before any run ended
+        out.append(rec(ev="RunEnd", outcome="none", flag=False,
+                       txt="driver: " + (result.get("error") or "no RunEnd")[:300]))
     return out
 
 
